@@ -441,6 +441,7 @@ struct Gen {
         if (prof == "C06" || prof == "C15") real_sender = true;
         else if (prof == "C01" || prof == "C02" || prof == "C03" || prof == "C04" || prof == "C10" || prof == "C11") real_sender = u < 0.5;
         else if (prof == "C05") real_sender = u < 0.7;
+        else if (prof == "C12" || prof == "C07" || prof == "C08") real_sender = u < 0.7;     // a decoder may be the first user of its codec
         if (!f.oti.empty()) real_sender = true;
         if (prof == "C05" || prof == "C06" || rng.chance(0.3)) ref_rx = true;
         int enc_codec = codec, enc_m = m;
@@ -612,7 +613,7 @@ Plan generate_sweep_plan(uint64_t seed, uint64_t index, const GenOptions &opt) {
 
 // run indices whose plan may ask for a cold start (a pure function of seed and index, so that the worker's supervisor
 // can run them in a pristine child without generating the plan first)
-bool cold_candidate(uint64_t seed, uint64_t run) { return mix64(seed ^ 0xC01DULL, run) % 40 == 0; }
+bool cold_candidate(uint64_t seed, uint64_t run) { return mix64(seed ^ 0xC01DULL, run) % 25 == 0; }
 
 Plan generate_plan(uint64_t seed, uint64_t run, const GenOptions &opt) {
     Hash64 h; h.str(opt.profile.c_str());
